@@ -182,7 +182,7 @@ def strat_system(ctx):
     return st.fixed_dictionaries({
         "sys": gen.system_spec(variety="any", max_species=3, max_reactions=2, max_order=3, max_cells=6,
                                max_axis=3, chemostats="species"),
-        "pool": pool_st, "route_a": st.sampled_from(["ctor", "dict"]), "route_b": st.sampled_from(["ctor", "dict"]),
+        "pool": pool_st, "route_a": st.sampled_from(["ctor", "dict"]), "route_b": st.sampled_from(["ctor", "dict", "file", "file-in-script"]),
         "out_a": gen.us_any, "out_b": gen.us_any,
     })
 
@@ -190,7 +190,7 @@ def strat_system(ctx):
 def strat_onecell(ctx):
     return st.fixed_dictionaries({
         "sys": gen.system_spec(variety="any", max_species=3, max_reactions=3, max_order=3, max_cells=1, chemostats="species"),
-        "pool": pool_st, "route_a": st.sampled_from(["ctor", "dict"]), "route_b": st.sampled_from(["ctor", "dict"]),
+        "pool": pool_st, "route_a": st.sampled_from(["ctor", "dict"]), "route_b": st.sampled_from(["ctor", "dict", "file", "file-in-script"]),
         "out_a": gen.us_any, "out_b": gen.us_any,
     })
 
@@ -250,7 +250,7 @@ def strat_euler(ctx):
     return st.fixed_dictionaries({
         "sys": gen.system_spec(variety="any", max_species=3, max_reactions=2, max_order=2, max_cells=12,
                                max_axis=3, chemostats="species", simple_graph=False, count_exp=(0, 2)),
-        "pool": pool_st, "route_a": st.sampled_from(["ctor", "dict"]), "route_b": st.sampled_from(["ctor", "dict"]),
+        "pool": pool_st, "route_a": st.sampled_from(["ctor", "dict"]), "route_b": st.sampled_from(["ctor", "dict", "file", "file-in-script"]),
         "out_a": gen.us_any, "out_b": gen.us_any, "steps": st.integers(1, 12),
         "dt_a": tform, "dt_b": tform, "tmax_a": tform, "tmax_b": tform, "cgmap_b": st.booleans(),
     })
